@@ -93,10 +93,35 @@ CLAIMED = {
         note='Partial: rename(2)/os.replace atomicity is built into the model (one transition) and is the one OS fact assumed; an asynchronous KeyboardInterrupt after rename is outside the model.',
         technique='Coq proof over executable Gallina model + differential correspondence (extracted OCaml) + direct property oracle',
         ref='7/C18'),
+    'C01': dict(
+        text='37 theorems: collect(run(ops)) = spec_collect(spec_run(ops)) EXACTLY for every operation history over the six metric types (refinement of the model of metrics.py to a specification written over the history of accepted calls), counter totals are left-to-right float folds restarted at reset, histogram buckets count observations <= bound cumulatively with _count = +Inf, rejected calls raise ValueError and change nothing, keyword/positional/permuted labels address one child, remove/clear exact, re-creation from zero. Tie: per-step comparison of registry.collect() and the exception class on ~13k histories (quick) against the extracted model (OCaml doubles); direct oracle = an independent plain-Python reference interpreter.',
+        note='Trusted: Coq kernel, extraction/driver; float <= transitive (Section hypotheses fle_trans, zlef_trans); counts modelled as N; str() of label values, float() of bounds and OCaml double arithmetic are outside the model.',
+        technique='Coq proof over executable Gallina model + differential correspondence (extracted OCaml) + direct property oracle',
+        ref='7/C01'),
+    'C02': dict(
+        text="11 theorems over an interleaving semantics with the library's operation programs (model/Conc.v), for every thread count, program list and schedule: mutual exclusion, every cell equals the fold of the updates applied to it (no lost update), equal labels -> one child, deadlock freedom from the lock-rank invariant, every load reports a value the cell held, counters monotone, every callout made holding no lock; refutation witness for an unlocked increment. Tie: (1) trace conformance under a deterministic scheduler with a cooperative TracedLock and logging descriptors, replayed event by event in the extracted model; (2) bounded exploration of the implementation (<= 2 pre-emptions quick, <= 3 thorough, both back-ends) with the direct oracle; (3) final-state comparison.",
+        note='Partial by design: proved for the lock-level abstraction. Trusted runtime facts: the GIL makes one bytecode and one built-in dict operation atomic; threading.Lock is a mutex; mmap slice writes not modelled below the slice; amounts are integers; the scheduler and interposition code.',
+        technique='Coq proof over executable Gallina model + differential correspondence (extracted OCaml) + direct property oracle',
+        ref='7/C02'),
+    'C10': dict(
+        text="10 theorems over a byte-exact model of mmap_dict.py (model/MmapDict.v): for every write history the representation invariant holds and all three read paths return exactly the association list in first-write order with the last written pair bit for bit; reopen rebuilds the same handle; entries are 8-aligned and tile [8, used); capacity = isz*2^j; the doubling loop and the reader terminate. Tie: the implementation's file BYTES (first `used` bytes) and the three read paths compared with the model on write sequences over every key length mod 8, multi-byte keys, growth by several doublings, all double bit patterns, reopen anywhere.",
+        note="Trusted: UTF-8 codec inverse, struct 'd' bit-exact and 'i' little-endian 32-bit; total size < 2^31.",
+        technique='Coq proof over executable Gallina model + differential correspondence (extracted OCaml) + direct property oracle',
+        ref='7/C10'),
+    'C11': dict(
+        text="8 theorems: for every history and every cut of the writer's file-effect trace the (repaired) reader returns the state after some prefix of the completed operations, optionally with the in-flight new key at zero; reopen at any cut succeeds; no never-written key or value appears; a directory of worker files each at an arbitrary cut is readable. Tie: open/truncate/__setitem__ interposed, the file copied after each effect and read by read_all_values_from_file, a reopening MmapedDict and the collector; thorough tier SIGKILLs real forked writers.",
+        note='Partial: one slice write is atomic in the model; that a slice assignment on a shared mapping is observed whole and that MAP_SHARED pages survive SIGKILL are runtime facts.',
+        technique='Coq proof over executable Gallina model + differential correspondence (extracted OCaml) + direct property oracle',
+        ref='7/C11'),
+    'C15': dict(
+        text='24 theorems: for the validation rules of the OpenMetrics parser model (model/OMParser.v), a violated rule makes the parse fail for ALL documents/positions/groups: blank line, missing or non-final # EOF, histogram bounds not increasing or counts not cumulative on adjacent buckets of any group, missing +Inf in any group, counter-like NaN/negative, info value, stateset value/label, quantile range, integral counts, le label, exemplar eligibility and length, timestamps partial or backwards in a group, duplicate label names. Tie: valid generated documents x one rule-violating transformation at every applicable position: implementation must raise ValueError and agree with the model.',
+        note="Partial: repeated/late metadata, interleaved/clashing families and unit rules are covered by correspondence and direct oracle only; _count placement other than directly after the bucket likewise. Two known findings (duplicate bucket line dropped before the checks; le spelt 'nan').",
+        technique='Coq proof over executable Gallina model + differential correspondence (extracted OCaml) + direct property oracle',
+        ref='7/C15'),
 }
 
 ALL = ['C%02d' % i for i in range(1, 20)]
-PENDING_REASON = 'check not built yet at this commit (work in progress; see DESIGN.md section 10 for the order of work)'
+PENDING_REASON = 'check not built yet at this commit (the composition of the C01, C08 and C10 models is in progress)'
 
 
 def main():
